@@ -205,6 +205,22 @@ func (s *Ser) destStr(d string) string {
 	return out
 }
 
+// lineStartSafeDest reports whether a spelled destination may be the first
+// thing on a line (rule S1): it then must not look like a block start (quote
+// marker, setext underline, fence, list marker, HTML block start conditions).
+func lineStartSafeDest(d string) bool {
+	if d == "" {
+		return false
+	}
+	ok := func(c byte) bool {
+		return c >= 0x80 || c >= '0' && c <= '9' || c >= 'a' && c <= 'z' || c >= 'A' && c <= 'Z' || c == '/'
+	}
+	if d[0] == '<' {
+		return len(d) > 1 && ok(d[1])
+	}
+	return ok(d[0]) || strings.IndexByte("%?.:@", d[0]) >= 0
+}
+
 // firstByte is the first source byte an inline will produce.
 func firstByte(in *Inline) byte {
 	switch in.K {
@@ -288,10 +304,11 @@ func (s *Ser) inl(st *inlState, ins []*Inline, after byte, parentDelim byte, mul
 				break
 			}
 			st.sb.WriteString("(")
-			if multi && !s.St.NoLinkNewlines && s.pick("nlbeforedest", 8) == 7 {
+			ds := s.destStr(in.Dest)
+			if multi && !s.St.NoLinkNewlines && s.pick("nlbeforedest", 8) == 7 && lineStartSafeDest(ds) {
 				st.sb.WriteString("\n")
 			}
-			st.sb.WriteString(s.destStr(in.Dest))
+			st.sb.WriteString(ds)
 			if in.Title != nil {
 				if multi && !s.St.NoLinkNewlines && s.pick("nlbeforetitle", 5) == 4 {
 					st.sb.WriteString("\n")
@@ -475,7 +492,11 @@ func (s *Ser) block(b *Block, c sctx) []line {
 		}
 	case RefDef:
 		l := s.indent(c) + "[" + b.Label + "]:"
-		l += []string{" ", "  ", "\n", "\n "}[s.pick("defsep", 4)] + s.destStr(b.Dest)
+		ds, sep := s.destStr(b.Dest), []string{" ", "  ", "\n", "\n "}[s.pick("defsep", 4)]
+		if !lineStartSafeDest(ds) {
+			sep = " "
+		}
+		l += sep + ds
 		if b.Title != nil {
 			t := *b.Title
 			if s.St.Canonical {
